@@ -59,3 +59,47 @@ package priorityqueue
 //@   requires Inv(queue)
 //@   modifies queue.heap.list.elements, elems(queue.heap.list.elements)
 //@   ensures [C06 C15 C17] Inv(queue) && Config(queue) && N(queue) == 0
+
+// ---- JSON (C11 round trip, C12 replace / sound / atomic) ----
+
+//@ func Queue.ToJSON
+//@   requires Inv(queue)
+//@   modifies nothing
+//@   ensures [C11 C17 C18] result1 == nil && fresh(arr(result0)) && jarr_kind(result0, elemof(queue.heap.list.elements)) == 3 && jarr_len(result0, elemof(queue.heap.list.elements)) == N(queue)
+//@     && (forall i :: 0 <= i && i < N(queue) ==> jarr_at(result0, i, elemof(queue.heap.list.elements)) == L(queue)[i])
+
+//@ func Queue.MarshalJSON
+//@   requires Inv(queue)
+//@   modifies nothing
+//@   ensures [C11 C17 C18] result1 == nil && fresh(arr(result0)) && jarr_kind(result0, elemof(queue.heap.list.elements)) == 3 && jarr_len(result0, elemof(queue.heap.list.elements)) == N(queue)
+//@     && (forall i :: 0 <= i && i < N(queue) ==> jarr_at(result0, i, elemof(queue.heap.list.elements)) == L(queue)[i])
+
+//@ -- the loaded content is the document rearranged by src (a permutation): heap order is re-established (C06, C12)
+//@ func Queue.FromJSON
+//@   requires Inv(queue)
+//@   modifies queue.heap.list.elements, elems(queue.heap.list.elements)
+//@   ghostvar src := idmap
+//@   ghostvar sinv := idmap
+//@   at after FromJSON#1: src := res_src
+//@   at after FromJSON#1: sinv := res_sinv
+//@   ghostresult src mapint
+//@   ghostresult sinv mapint
+//@   ensures [C06 C12 C17] Inv(queue) && Config(queue) && (result == nil <==> jarr_kind(data, elemof(queue.heap.list.elements)) >= 2)
+//@   ensures [C12] atomic: result != nil ==> L(queue) == old(L(queue))
+//@   ensures [C06 C11 C12] loaded: jarr_kind(data, elemof(queue.heap.list.elements)) == 3 ==> N(queue) == jarr_len(data, elemof(queue.heap.list.elements)) && binaryheap.IsPerm(src, sinv, N(queue)) && (forall k :: 0 <= k && k < N(queue) ==> L(queue)[k] == jarr_at(data, src[k], elemof(queue.heap.list.elements)))
+//@   ensures [C12] null: jarr_kind(data, elemof(queue.heap.list.elements)) == 2 ==> N(queue) == 0
+
+//@ -- the loaded content is the document rearranged by src (a permutation): heap order is re-established (C06, C12)
+//@ func Queue.UnmarshalJSON
+//@   requires Inv(queue)
+//@   modifies queue.heap.list.elements, elems(queue.heap.list.elements)
+//@   ghostvar src := idmap
+//@   ghostvar sinv := idmap
+//@   at after FromJSON#1: src := res_src
+//@   at after FromJSON#1: sinv := res_sinv
+//@   ghostresult src mapint
+//@   ghostresult sinv mapint
+//@   ensures [C06 C12 C17] Inv(queue) && Config(queue) && (result == nil <==> jarr_kind(bytes, elemof(queue.heap.list.elements)) >= 2)
+//@   ensures [C12] atomic: result != nil ==> L(queue) == old(L(queue))
+//@   ensures [C06 C11 C12] loaded: jarr_kind(bytes, elemof(queue.heap.list.elements)) == 3 ==> N(queue) == jarr_len(bytes, elemof(queue.heap.list.elements)) && binaryheap.IsPerm(src, sinv, N(queue)) && (forall k :: 0 <= k && k < N(queue) ==> L(queue)[k] == jarr_at(bytes, src[k], elemof(queue.heap.list.elements)))
+//@   ensures [C12] null: jarr_kind(bytes, elemof(queue.heap.list.elements)) == 2 ==> N(queue) == 0
